@@ -503,12 +503,21 @@ func evalC20Roots(x *Ctx, in Input) {
 		coeff = pad(mul(mul([]float64{1}, r[0]), r[1]))
 		coeff[3] = a3
 		truth = r
-		// just above the solver's epsilon the cubic formula is ill-conditioned (b/3a ~ 1e7): measured forward error of the
-		// pinned solver is <= 4e-4 there, i.e. <= 0.01 units along a route — well inside the fitter's 0.05 tolerance.
-		// A wrong formula is off by O(1); 2e-3 separates the two.
-		tol = 2e-3
 		if math.Abs(a3) >= eps {
-			truth = append(append([]float64(nil), r...), -coeff[2]/a3) // the far root
+			// the true roots of the cubic: Newton refinement from the quadratic's roots and from the far root -a2/a3
+			truth = nil
+			for _, x0 := range []float64{r[0], r[1], -coeff[2] / a3} {
+				xr := x0
+				for it := 0; it < 60; it++ {
+					f := coeff[0] + xr*(coeff[1]+xr*(coeff[2]+xr*coeff[3]))
+					df := coeff[1] + xr*(2*coeff[2]+xr*3*coeff[3])
+					if df == 0 {
+						break
+					}
+					xr -= f / df
+				}
+				truth = append(truth, xr)
+			}
 		}
 		desc = fmt.Sprintf("%g x^3 + (x-%g)(x-%g)", a3, r[0], r[1])
 	case 6:
@@ -570,6 +579,9 @@ func evalC20Roots(x *Ctx, in Input) {
 }
 
 func init() {
+	inputPreds["near-epsilon-leading-coefficient"] = func(in Input, c *Cfg) bool {
+		return len(in.E) == 5 && in.E[0] == 5 && in.E[3] >= 3
+	}
 	inputPreds["degenerate-position"] = func(in Input, c *Cfg) bool {
 		if len(in.E) < 8 || len(in.E) != 5+3*in.E[0] {
 			return false
